@@ -65,6 +65,7 @@ theorem rowCount_sim {a b : Shards} (h : Sim a b) : (a.rows.map List.length).sum
 
 theorem counters_sim (p : Program) {env env' : List Shards} (h : All2 Sim env env') : counters p env = counters p env' := by
   unfold counters
+  simp only
   congr 1
   funext c
   congr 1
